@@ -148,6 +148,30 @@ def check_shape(g, acc):
     r1, r2 = eq(A, C), eq(C, A)
     if r1 is not True or r2 is not True:
         acc.add_problem(problem("copy_not_equal", dict(case0, difference="copy"), expected=True, observed=[r1, r2]))
+    # ... and of a tree whose children were listed through the children property, without the optional back-reference
+    if g["children"]:
+        A2 = gtree.build(g)
+        for n_ in gtree.preorder(A2)[1:]:
+            n_.parent = None
+        C2 = A2.copy()
+        n_pairs += 1
+        r1, r2 = eq(A2, C2), eq(C2, A2)
+        sizes = [len(gtree.preorder(A2)), len(gtree.preorder(C2))]
+        if r1 is not True or r2 is not True or sizes[0] != sizes[1]:
+            acc.add_problem(problem("copy_not_equal", dict(case0, difference="copy; children carry no parent back-reference"),
+                                    expected=True, observed=[r1, r2, sizes], of="no-back-references"))
+        # one subtree listed under two parents: each parent's copy equals that parent
+        X = gtree.build(g)
+        Y = Node("zzOther")
+        shared = X.children[-1]
+        Y.add_child(shared)
+        for P_ in (X, Y):
+            CP = P_.copy()
+            n_pairs += 1
+            r1, r2 = eq(P_, CP), eq(CP, P_)
+            if r1 is not True or r2 is not True:
+                acc.add_problem(problem("copy_not_equal", dict(case0, difference="copy; last child also listed under another parent"),
+                                        expected=True, observed=[r1, r2], of="shared-child"))
     # ... also the copy of every inner node equals that node (tail included)
     for path_, _ in gtree.walk(g):
         if path_:
